@@ -30,11 +30,11 @@ CLAIMED["C03"] = dict(
         "(known finding). (2) Whole types: C03_reparse_returns_the_result / C03_reparse_call / C03_reparse_nested — for every type of "
         "the fragment `stable` (Spec/Stable.v: builtin classes, data classes, unions | and ^ of those, negations, constrained scalars "
         "and Optional-style rules over a stable origin, list / set / frozenset / variable-length tuple of stable element types, "
-        "Dict[K, V] of stable key / value types, checking constraints), every input, every options record with the 'throw' policies and every nesting level, parsing the "
+        "fixed-length Tuple[T1..Tn] and Dict[K, V] of stable types, checking constraints), every input, every options record with the 'throw' policies and every nesting level, parsing the "
         "result again returns exactly that result and leaves the context untouched, provided no bool stands where an int is "
         "declared (int([True]) is True: proved to re-parse to the equal value 1); C03_results_are_typed derives the exact classes of "
         "results from the first parse (by induction on the knot of the parse calculus, three stages of unions and set rebuilding "
-        "included). Outside the fragment (fixed-length tuples, &, unions of constrained types, lax constraints inside "
+        "included). Outside the fragment (&, unions of constrained types, lax constraints inside "
         "types, exclude / preserve) idempotence is carried by the parse correspondence and the idempotence oracle, with six listed findings.",
    note="Trusted: as C02 and C01 (Model/Parse.v tied by the parse correspondence suites). The reparse-fragment suite evaluates "
         "in_fragment in Coq on every accepted generated case and requires the implementation's second parse to return the first result "
